@@ -643,3 +643,93 @@ pub fn backend_sequences(seed: u64, n: usize) -> RunOut {
     }
     out
 }
+
+// ---------------------------------------------------------------------------------------------
+// storage faults (C10): one I/O error at the k-th storage operation of a call
+
+fn replay_with_fault(prefix: &[String], op: &str, k: usize, plen: u64) -> (String, String, String) {
+    let mut sim = Sim::new();
+    sim.check_oracle = false;
+    for l in prefix { sim.exec(l); }
+    sim.exec(&format!("faultnext W {k}"));
+    let res = sim.exec(op);
+    let st = sim.exec("faultstate W");
+    let r2 = sim.exec("reopen W");
+    let probe = if r2.starts_with("ok") { sim.exec(&format!("probeat W {plen}")) } else { format!("reopen:{r2}") };
+    (res, st, probe)
+}
+
+pub fn fault_histories(seed: u64, n: usize, max_ops: u64) -> RunOut {
+    let mut r = Rng::new(seed);
+    let mut c = Ctx { sim: Sim::new(), out: RunOut { ops: vec![], outs: vec![], stats: BTreeMap::new(), failures: vec![], samples: vec![] }, seen: HashSet::new(), hist_digest: String::new() };
+    for _ in 0..n {
+        let mut lines: Vec<String> = vec![format!("new W {SEED_HEX}")];
+        c.run(lines[0].clone());
+        let nops = r.range(2, max_ops);
+        for _ in 0..nops {
+            let len = c.sim.h["W"].oracle.len;
+            let line = match r.below(10) { 0..=4 => random_log_op(&mut r, len, false, true), 5 => format!("get W {}", r.below(len + 1)), 6 => "reopen W".into(), _ => format!("append W {}", hex(&gen_block(&mut r, false))) };
+            if line.starts_with("probe") || line.starts_with("has") || line.starts_with("info") { continue; }
+            // clean run of the operation: kinds of all its storage operations, journal, crash outputs
+            c.sim.exec("faultnext W 999999999"); c.sim.history.pop();
+            let clean = c.run(line.clone());
+            let st = c.sim.exec("faultstate W"); c.sim.history.pop();
+            let kinds: Vec<char> = st.split("kinds=").nth(1).unwrap_or("").chars().collect();
+            let mutating = line.starts_with("append") || line.starts_with("batch") || line.starts_with("clear") || line.starts_with("ro ");
+            let jlen = if mutating { c.sim.h["W"].last_journal.len() } else { 0 };
+            let mut crash_out: Vec<String> = vec![];
+            if mutating { for j in 0..=jlen { crash_out.push(c.run(format!("crash W {j} 0"))); } }
+            let plen = c.sim.h["W"].oracle.len.max(c.sim.h["W"].prev_oracle.len);
+            let before_probe = if !mutating { let o = c.sim.exec(&format!("probeat W {plen}")); c.sim.history.pop(); Some(o) } else { None };
+            // every fault point
+            for k in 0..kinds.len() {
+                let (res, fst, probe) = replay_with_fault(&lines, &line, k, plen);
+                *c.out.stats.entry(format!("fault_at_{}", kinds[k])).or_insert(0) += 1;
+                *c.out.stats.entry("fault_points".into()).or_insert(0) += 1;
+                let fired = fst.starts_with("failed=true");
+                if !fired { continue; }
+                let j = kinds[..k].iter().filter(|c| **c == 'w' || **c == 'd' || **c == 't').count();
+                let ctx = format!("`{line}` with an I/O error at its storage operation {k} ({}) || history: {}", kinds[k], lines.join(" ; "));
+                let line_no = c.sim.line;
+                if res.starts_with("ok") { c.out.failures.push(Failure { key: "fault-swallowed".into(), detail: format!("the call returned [{}] although a storage operation failed: {ctx}", crate::sim::trunc(&res)), line: line_no }); }
+                else if res.starts_with("panic") { c.out.failures.push(Failure { key: "fault-panic".into(), detail: format!("the call panicked: {ctx}"), line: line_no }); }
+                let expect = if mutating { crash_out.get(j).cloned().unwrap_or_default() } else { before_probe.clone().unwrap_or_default() };
+                if probe != expect { c.out.failures.push(Failure { key: "fault-recovery-wrong".into(), detail: format!("after the failed call, drop and reopen shows [{}], expected the state of a crash after {j} storage operations [{}]: {ctx}", crate::sim::trunc(&probe), crate::sim::trunc(&expect)), line: line_no }); }
+            }
+            let _ = clean;
+            lines.push(line);
+        }
+        c.end_history();
+    }
+    c.out
+}
+
+// ---------------------------------------------------------------------------------------------
+// Merkle tree / signature against the independent reference (C05)
+
+pub fn tree_histories(seed: u64, n: usize, max_len: u64) -> RunOut {
+    let mut r = Rng::new(seed);
+    let mut c = Ctx { sim: Sim::new(), out: RunOut { ops: vec![], outs: vec![], stats: BTreeMap::new(), failures: vec![], samples: vec![] }, seen: HashSet::new(), hist_digest: String::new() };
+    for hi in 0..n {
+        c.run(format!("new W {SEED_HEX}"));
+        // target length: every length up to max_len is hit across histories; sizes 0..5 KiB
+        let target = if (hi as u64) <= max_len { hi as u64 } else { r.range(0, max_len) };
+        let fixed = hi % 3 == 0;
+        let mut checks = 0;
+        while c.sim.h["W"].oracle.len < target {
+            let left = target - c.sim.h["W"].oracle.len;
+            let blk = |r: &mut Rng| if fixed { vec![0x61u8; 3] } else { let n = match r.below(12) { 0 => 0, 1 => r.range(1000, 5200), 2 => 4096, _ => r.range(1, 60) } as usize; r.bytes(n) };
+            if r.chance(1, 3) { let k = r.range(1, left.min(9)); c.run(format!("batch W {}", (0..k).map(|_| hex(&blk(&mut r))).collect::<Vec<_>>().join(","))); }
+            else { c.run(format!("append W {}", hex(&blk(&mut r)))); }
+            if r.chance(1, 7) { c.run("reopen W".into()); }
+            if r.chance(1, 5) || c.sim.h["W"].oracle.len == target { checks += 1; let bl = c.sim.h["W"].oracle.blocks.iter().map(|b| hex(b)).collect::<Vec<_>>().join(","); c.run(format!("reftree W {}", if bl.is_empty() { "~".to_string() } else { bl })); }
+        }
+        if checks == 0 { c.run("reftree W ~".into()); }
+        c.run("reopen W".into());
+        let bl = c.sim.h["W"].oracle.blocks.iter().map(|b| hex(b)).collect::<Vec<_>>().join(",");
+        c.run(format!("reftree W {}", if bl.is_empty() { "~".to_string() } else { bl }));
+        c.run("probe W".into());
+        c.end_history();
+    }
+    c.out
+}
